@@ -164,7 +164,15 @@ def run(ctx):
             # loop-carried accumulation (data += b): the reads of earlier iterations are represented by the loop-carried term
             carried = [x for x in N.walk(data)] if data is not None else []
             carried = [x for x in carried if x[0] == "lv" and any(e.kind == "READ" and e["stream"] == STREAM and x[2] in e.loops for e in p.events)]
-            from_outer = data is not None and (any(x[0] in ("read", "readall") and x[1] == STREAM for x in N.walk(data)) or bool(carried))
+            # ... or collected in a list that is joined afterwards: every append to that list (on this path and in the earlier iterations of its
+            # loops) is a unit just read from the outer stream
+            listed = []
+            if data is not None:
+                lists = [x for x in N.walk(data) if x[0] == "new" and x[1] == "list"]
+                apps = [x for x in list(p.events) + [y for _, evs, _ in getattr(p, "loop_steps", []) for y in evs] if x.kind == "MUT" and x["base"] in lists and x["method"] in ("append", "extend", "insert")]
+                if lists and apps and all(x["method"] == "append" and x["args"] and x["args"][0][0] == "read" and x["args"][0][1] == STREAM for x in apps):
+                    listed = apps
+            from_outer = data is not None and (any(x[0] in ("read", "readall") and x[1] == STREAM for x in N.walk(data)) or bool(carried) or bool(listed))
             ctx.ob("C08.R1", fi, from_outer, "the substream's content is data read from the outer stream (%s)" % N.show(data), key="content from outer")
             after = p.events[p.index(new):]
             touched = [e for e in after if e.kind in ("READ", "READALL", "SEEK", "WRITE", "RAWIO", "TELL") and e.a.get("stream") == STREAM]
@@ -190,6 +198,8 @@ def run(ctx):
                 region_start = None
                 if first is None and carried:
                     first = next(e for e in p.events if e.kind == "READ" and e["stream"] == STREAM and carried[0][2] in e.loops)
+                if first is None and listed:
+                    first = next((e for e in p.events if e.kind == "READ" and e["stream"] == STREAM and e.loops), None)
                 if first is not None:
                     region_start = t.pos_before(first)
                     if first.loops:
@@ -221,7 +231,18 @@ def run(ctx):
             elif cls == "OffsettedEnd":
                 ctx.ob("C08.R2", fi, fin == N.mk_add(END(STREAM), ("eval", N.selfattr("endoffset"), CTX)), "OffsettedEnd ends at end-of-stream + endoffset (got %s)" % N.show(fin), key="extent")
                 rd = [e for e in p.events if e.kind == "READ" and e["stream"] == STREAM]
-                ctx.ob("C08.R2", fi, len(rd) == 1 and t.pos_before(rd[0]) == p0, "the end probe restores the current position before the region is read", key="probe restores")
+                ra = [e for e in p.events if e.kind == "READALL" and e["stream"] == STREAM]
+                eo = ("eval", N.selfattr("endoffset"), CTX)
+                want_len = N.mk_add(N.mk_add(END(STREAM), eo), p0, -1)
+                if ra and not rd:
+                    # the other spelling: the rest of the stream is read once, the region is its first len + endoffset bytes, and the stream steps
+                    # back over the footer (the extent obligation above fixes the final position)
+                    okr = len(ra) == 1 and t.pos_before(ra[0]) == p0 and data is not None and data[0] == "sub" and data[1] == ra[0]["res"] and data[2][0] == "slice" \
+                        and data[2][1] == N.NONE and data[2][3] == N.NONE and t.val(data[2][2]) == want_len
+                    ctx.ob("C08.R2", fi, okr, "the region is read from the entry position and is exactly the bytes up to end-of-stream + endoffset", key="probe restores")
+                else:
+                    ctx.ob("C08.R2", fi, len(rd) == 1 and t.pos_before(rd[0]) == p0 and t.val(rd[0]["length"]) == want_len,
+                           "the end probe restores the current position before the region is read, and the region is exactly the bytes up to end-of-stream + endoffset", key="probe restores")
             elif cls in ("NullStripped", "ProcessXor"):
                 ctx.ob("C08.R2", fi, fin == END(STREAM), "%s takes the rest of the stream as its region" % cls, key="extent")
         if cls == "NullTerminated":
@@ -291,11 +312,22 @@ def null_terminated(ctx, fi, paths, rule="C08.R2"):
     # a unit that is not the terminator is appended, unchanged, at the end of the region data before the next unit is read
     steps = [(evs, env_) for p in paths[:1] for lid, evs, env_ in p.loop_steps]
     okstep = bool(steps)
+    family = "bytes"
     for evs, env_ in steps:
         rd = [e for e in evs if e.kind == "READ"]
         grown = [v for k, v in env_.items() if isinstance(v, tuple) and v and v[0] in ("concat", "uconcat") and v[1][0] == "lv"]
+        apps = [e for e in evs if e.kind == "MUT" and e["method"] == "append" and e["base"][0] == "new" and e["base"][1] == "list"]
+        if not grown and apps:
+            family = "list"       # units collected in a list (joined after the loop): the unit just read is appended, nothing else
+            okstep = okstep and len(rd) == 1 and len(apps) == 1 and apps[0]["args"] == (rd[0]["res"],)
+            continue
         okstep = okstep and len(rd) == 1 and any(v[2] == rd[0]["res"] and v[1][3] == N.const(b"") for v in grown)
     ctx.ob(rule, fi, okstep, "NullTerminated collects every non-terminator unit, in order, into region data that starts empty", key="NT accumulate")
+    if family == "list":
+        # the include / consume handling of this spelling happens after the loop on a joined value whose length the position algebra cannot
+        # relate to the stream position: the remaining terminator rules are undecided for it (not violated)
+        ctx.error("%s undecided: NullTerminated._parse collects its units in a list and joins them after the loop; the include/consume rules know the in-loop spelling only" % rule)
+        return
     term = N.selfattr("term")
     unit = ("call", ("free", "len"), (term,), ())
     inc, con, req = N.selfattr("include"), N.selfattr("consume"), N.selfattr("require")
